@@ -301,5 +301,123 @@ theorem saveBmp_read (k : Kind) (w h : Nat) (data : Bytes)
     intro r hr
     simp only [E, hD r hr, Option.getD_some]
 
+/-! ### the row-wise meaning of samples equals the pixel-by-pixel (indexed) one -/
+
+theorem splitRows_range (bpl : Nat) : ∀ (h : Nat) (data : Bytes),
+    splitRows bpl h data = (List.range h).map (fun r => (data.drop (r * bpl)).take bpl)
+  | 0, _ => rfl
+  | h + 1, data => by
+    rw [splitRows, splitRows_range bpl h, List.range_succ_eq_map]
+    simp only [List.map_cons, List.map_map, Nat.zero_mul, List.drop_zero]
+    congr 1
+    apply List.map_congr_left
+    intro r _
+    simp only [Function.comp, List.drop_drop]
+    congr 2
+    rw [Nat.succ_mul]; omega
+
+theorem row_getD (data : Bytes) (r bpl i : Nat) (hi : i < bpl) :
+    ((data.drop (r * bpl)).take bpl).getD i 0 = data.getD (r * bpl + i) 0 := by
+  simp only [List.getD_eq_getElem?_getD, List.getElem?_take, hi, if_true, List.getElem?_drop]
+
+theorem eq_range_map (l : Bytes) : l = (List.range l.length).map (fun c => l.getD c 0) := by
+  apply List.ext_getElem
+  · simp
+  · intro i h1 h2
+    simp [List.getD_eq_getElem?_getD, List.getElem?_eq_getElem h1]
+
+theorem take_eq_range_map {α} (d : α) (l : List α) (w : Nat) (hw : w ≤ l.length) :
+    l.take w = (List.range w).map (fun c => l.getD c d) := by
+  apply List.ext_getElem
+  · simp [hw]
+  · intro i h1 h2
+    have hi : i < w := by simpa using h2
+    have : i < l.length := by omega
+    simp [List.getD_eq_getElem?_getD, List.getElem?_eq_getElem this]
+
+theorem triples : ∀ (w : Nat) (l : Bytes), l.length = 3 * w →
+    l = (List.range w).flatMap (fun c => [l.getD (3 * c) 0, l.getD (3 * c + 1) 0, l.getD (3 * c + 2) 0])
+  | 0, l, h => by
+    have : l = [] := List.eq_nil_of_length_eq_zero (by omega)
+    simp [this]
+  | w + 1, a :: b :: c :: rest, h => by
+    have hr : rest.length = 3 * w := by simp at h; omega
+    rw [List.range_succ_eq_map, List.flatMap_cons, List.flatMap_map]
+    have ih := triples w rest hr
+    simp only [Nat.mul_zero, List.getD_cons_zero, Nat.zero_add, List.getD_cons_succ, List.cons_append, List.nil_append]
+    congr 3
+  | w + 1, [], h => by simp at h
+  | w + 1, [_], h => by simp at h; omega
+  | w + 1, [_, _], h => by simp at h; omega
+
+theorem bits_getD : ∀ (row : Bytes) (c : Nat), c < 8 * row.length →
+    (row.flatMap bitsOfByte).getD c 0 = (row.getD (c / 8) 0).toNat / 2 ^ (7 - c % 8) % 2
+  | [], c, h => by simp at h
+  | v :: rest, c, h => by
+    by_cases hc : c < 8
+    · have h8 : (bitsOfByte v).length = 8 := rfl
+      have hd : c / 8 = 0 := by omega
+      simp only [List.flatMap_cons, List.getD_eq_getElem?_getD, hd, List.getElem?_cons_zero, Option.getD_some]
+      rw [List.getElem?_append_left (by omega)]
+      have : c = 0 ∨ c = 1 ∨ c = 2 ∨ c = 3 ∨ c = 4 ∨ c = 5 ∨ c = 6 ∨ c = 7 := by omega
+      rcases this with rfl | rfl | rfl | rfl | rfl | rfl | rfl | rfl <;> simp [bitsOfByte]
+    · have h8 : (bitsOfByte v).length = 8 := rfl
+      have ih := bits_getD rest (c - 8) (by simp at h; omega)
+      have e1 : c / 8 = (c - 8) / 8 + 1 := by omega
+      have e2 : c % 8 = (c - 8) % 8 := by omega
+      simp only [List.flatMap_cons, List.getD_eq_getElem?_getD] at ih ⊢
+      rw [List.getElem?_append_right (by omega), h8, ih, e1, e2, List.getElem?_cons_succ]
+
+theorem rowRGB_eq_pixels (k : Kind) (w h : Nat) (data : Bytes) (hlen : data.length = h * rowBytes k w)
+    (r : Nat) (hr : r < h) :
+    rowRGB k w ((data.drop (r * rowBytes k w)).take (rowBytes k w)) =
+      (List.range w).flatMap (fun c => pixel k w data r c) := by
+  have hrowlen : ((data.drop (r * rowBytes k w)).take (rowBytes k w)).length = rowBytes k w := by
+    simp only [List.length_take, List.length_drop, hlen]
+    have : r * rowBytes k w + rowBytes k w ≤ h * rowBytes k w := by
+      have := Nat.mul_le_mul_right (rowBytes k w) (show r + 1 ≤ h from hr)
+      rw [Nat.add_mul] at this; omega
+    omega
+  cases k with
+  | gray8 =>
+    simp only [rowBytes] at *
+    simp only [rowRGB]
+    conv => lhs; rw [eq_range_map ((data.drop (r * w)).take w), hrowlen]
+    rw [List.flatMap_map]
+    apply flatMap_congr'
+    intro c hc
+    have hc' : c < w := by simpa using hc
+    simp only [row_getD data r w c hc', grayPx, pixel]
+  | rgb8 =>
+    simp only [rowBytes] at *
+    simp only [rowRGB]
+    conv => lhs; rw [triples w _ hrowlen]
+    apply flatMap_congr'
+    intro c hc
+    have hc' : c < w := by simpa using hc
+    simp only [pixel]
+    rw [row_getD data r (3 * w) (3 * c) (by omega), row_getD data r (3 * w) (3 * c + 1) (by omega),
+      row_getD data r (3 * w) (3 * c + 2) (by omega)]
+    simp only [Nat.add_assoc]
+  | bit1 =>
+    simp only [rowBytes] at *
+    simp only [rowRGB]
+    have hB : w ≤ (List.flatMap bitsOfByte ((data.drop (r * ((w + 7) / 8))).take ((w + 7) / 8))).length := by
+      rw [length_flatMap_bits, hrowlen]; omega
+    rw [take_eq_range_map 0 _ w hB, List.flatMap_map]
+    apply flatMap_congr'
+    intro c hc
+    have hc' : c < w := by simpa using hc
+    rw [bits_getD _ c (by rw [hrowlen]; omega), row_getD data r ((w + 7) / 8) (c / 8) (by omega)]
+    simp only [bitPx, pixel]
+
+theorem samplesRGB_eq_idx (k : Kind) (w h : Nat) (data : Bytes) (hlen : data.length = h * rowBytes k w) :
+    samplesRGB k w h data = samplesRGBIdx k w h data := by
+  unfold samplesRGB samplesRGBIdx
+  rw [splitRows_range, List.flatMap_map]
+  apply flatMap_congr'
+  intro r hr
+  exact rowRGB_eq_pixels k w h data hlen r (by simpa using hr)
+
 end PdfVerif.BmpLemmas
 
